@@ -85,7 +85,9 @@ def rule_fs(ctx):
     def lister_facts(b):
         fn = p.methods(b)["list"]
         txt = " ".join(src(s) for s in fn.body)
-        it = [src(n.value) for n in ast.walk(fn) if isinstance(n, ast.Assign) and last_attr(n.targets[0]) == "iter" and not isinstance(n.value, ast.Constant)]
+        pathp = fn.args.args[1].arg if len(fn.args.args) > 1 else "path"
+        it = sorted({src(c) for c in ast.walk(fn) if isinstance(c, ast.Call) and isinstance(c.func, ast.Attribute) and isinstance(c.func.value, ast.Name) and c.func.value.id == pathp})
+        it += sorted({src(c.test) for c in ast.walk(fn) if isinstance(c, ast.IfExp)})
         conv = any(isinstance(h, ast.ExceptHandler) and h.type is not None and "StopIteration" in handler_names(h) and any(isinstance(r, ast.Raise) and "StopAsyncIteration" in src(r) for r in ast.walk(h))
                    for h in ast.walk(fn))
         nxt = any(isinstance(c, ast.Call) and isinstance(c.func, ast.Name) and c.func.id == "next" for c in ast.walk(fn))
@@ -98,7 +100,7 @@ def rule_fs(ctx):
     if bi is not None:
         w = p.inner_wrapper(bi)
         calls = [c for c in walk_no_nested(w) if isinstance(c, ast.Call) and is_method_call(c, "run_in_executor")]
-        ok = len(calls) == 1 and len(calls[0].args) == 2 and src(calls[0].args[1]) == "functools.partial(f, self, *args, **kwargs)"
+        ok = len(calls) == 1 and len(calls[0].args) == 2 and dsrc(p, calls[0].args[1], w) == "functools.partial(f, self, *args, **kwargs)"
         ctx.ob("C18.FS", w, "_blocking_io runs f(self, *args, **kwargs) in the executor, unchanged", ok, "_blocking_io does not run the wrapped function with its arguments unchanged", construct="fs:_blocking_io")
 
 
@@ -269,14 +271,32 @@ def rule_atomic(ctx):
             known = set()
             fresh = set()
             list_vars = set()
+            parent_of, node_of = {}, {}   # parent var -> path expr whose .parent it is ; path expr -> node var
+            found_all = set()
             path_bad = None
             infeasible = False
             for e in ev:
                 if e[0] == "branch":
                     t, pol = e[1], e[2]
-                    if isinstance(t, ast.Call) and isinstance(t.func, ast.Name) and t.func.id == "isinstance" and "list" in src(t) and not pol and src(t.args[0]) in list_vars:
+                    t_, pol_ = t, pol
+                    while isinstance(t_, ast.UnaryOp) and isinstance(t_.op, ast.Not):
+                        t_, pol_ = t_.operand, not pol_
+                    if isinstance(t_, ast.Call) and isinstance(t_.func, ast.Name) and t_.func.id == "isinstance" and "list" in src(t_) and not pol_ and src(t_.args[0]) in list_vars:
                         infeasible = True   # the cursor is the content list of a directory created on this very path
                         break
+                    # tree invariant: the parent of a node that get_node found (non-None on this path) is a directory
+                    found = set()
+                    tt = t
+                    if isinstance(tt, ast.Compare) and len(tt.ops) == 1 and isinstance(tt.comparators[0], ast.Constant) and tt.comparators[0].value is None and isinstance(tt.left, ast.Name):
+                        if (isinstance(tt.ops[0], ast.Is) and not pol) or (isinstance(tt.ops[0], ast.IsNot) and pol):
+                            found.add(tt.left.id)
+                    if isinstance(tt, ast.Compare) and len(tt.ops) == 1 and isinstance(tt.ops[0], ast.In) and isinstance(tt.left, ast.Constant) and tt.left.value is None \
+                            and isinstance(tt.comparators[0], (ast.Tuple, ast.List)) and not pol:
+                        found |= {x.id for x in tt.comparators[0].elts if isinstance(x, ast.Name)}
+                    found_all |= found
+                    for pv, child in parent_of.items():
+                        if node_of.get(child) in found_all:
+                            known.add(pv)
                     subs = t.values if isinstance(t, ast.BoolOp) and ((isinstance(t.op, ast.Or) and not pol) or (isinstance(t.op, ast.And) and pol)) else [t]
                     for sub in subs:
                         if isinstance(sub, ast.Compare) and src(sub.left).endswith(".type") and isinstance(sub.comparators[0], ast.Constant) and sub.comparators[0].value == "dir":
@@ -293,10 +313,11 @@ def rule_atomic(ctx):
                 if isinstance(n, ast.Assign) and isinstance(n.targets[0], ast.Name) and isinstance(n.value, ast.Call) and is_self_call(n.value, {"get_node"}) and n.value.args \
                         and src(n.value.args[0]).endswith(".parent"):
                     child = src(n.value.args[0])[:-7]
-                    found_child = any(b[0] == "branch" and isinstance(b[1], ast.Compare) and isinstance(b[1].left, ast.Name) and isinstance(b[1].ops[0], ast.Is) and not b[2]
-                                      for b in ev[:ev.index(e)]) and name in ("rmdir", "unlink")
-                    if found_child or (name == "rename" and n.targets[0].id == "sparent"):
+                    parent_of[n.targets[0].id] = child
+                    if node_of.get(child) in found_all:
                         known.add(n.targets[0].id)
+                elif isinstance(n, ast.Assign) and isinstance(n.targets[0], ast.Name) and isinstance(n.value, ast.Call) and is_self_call(n.value, {"get_node"}) and n.value.args:
+                    node_of[src(n.value.args[0])] = n.targets[0].id
                 if isinstance(n, ast.Assign) and isinstance(n.value, ast.Call) and last_attr(n.value.func) == "Node":
                     kw = {k.arg: k.value for k in n.value.keywords}
                     if isinstance(kw.get("content"), ast.List):
